@@ -225,3 +225,19 @@ fn wasm_push_pop_equals_vm() {
     state_pop_host(&mut ws, o as i64);
     assert!(ws.pos == vm.pos && ws.pos == pos);
 }
+
+/// Range fact used by the Verus unit `wasm_state` for the expression it leaves uninterpreted
+/// (`let max_delay = (len - 1) as f64; let delay_samples = time.clamp(0.0, max_delay) as u64;` in state_delay_host):
+/// for EVERY f64 bit pattern and every admissible length the delay in samples is at most len - 1.
+/// Loop-free, full domain => complete.
+#[kani::proof]
+fn delay_samples_in_range() {
+    let time = f64::from_bits(kani::any());
+    let len: u64 = kani::any();
+    kani::assume(len >= 1 && len <= MAX_WASM_DELAY_SAMPLES as u64);
+    let max_delay = (len - 1) as f64;
+    let delay_samples = time.clamp(0.0, max_delay) as u64;
+    assert!(delay_samples <= len - 1);
+    assert!(delay_samples == delay_samples_spec(time.to_bits(), len));
+    kani::cover!(delay_samples > 0 && delay_samples < len - 1);
+}
